@@ -1,8 +1,10 @@
 use crate::report::Ctx;
+pub mod c07;
 pub mod c09;
 
 pub fn lookup(name: &str) -> Option<fn(&mut Ctx)> {
     match name {
+        "C07" => Some(c07::run),
         "C09" => Some(c09::run),
         _ => None,
     }
